@@ -4,7 +4,8 @@
 // state::verif_replay::build_world), real files and a real capture file.
 //
 // line:  the dbstate line (R= T= F= D= X=, see state_replay.rs) plus
-//   RV=<script exit status>  OUT=<bytes the script wrote to stdout>  HAS3=<0|1>  TOUCH=<0 untouched|1 rewrote $1|2 removed $1>
+//   RV=<script exit status>  OUT=<bytes the script wrote to stdout>  HAS3=<0|1>
+//   TOUCH=<0 untouched|1 rewrote $1 (newer mtime)|2 removed $1|3 rewrote $1 keeping an older mtime>
 //   FAULT=<none|create>   (create: File::create of the temporary file fails - the temporary name is put into a directory that
 //                          does not exist, the only way to make the call fail for root without touching the target's directory)
 // output: RET=<n|PANIC:msg> TGT=<missing|dir|previous|three|stdout|direct|other:..> INO=<same|diff|na> TMP=<0|1> ROWS=.. DEPS=..
@@ -67,14 +68,20 @@ fn record_batch() {
         let ino_before = before_t.as_ref().map(|m| m.ino());
         // ---- what the script did
         match touch {
-            "1" => {
+            "1" | "3" => {
                 std::fs::write(&tpath, b"direct").unwrap();
                 let f = std::fs::OpenOptions::new().write(true).open(&tpath).unwrap();
                 let old = before_t
                     .as_ref()
                     .and_then(|m| m.modified().ok())
                     .unwrap_or(std::time::SystemTime::UNIX_EPOCH);
-                f.set_modified(old + Duration::from_secs(100)).unwrap();
+                if touch == "1" {
+                    f.set_modified(old + Duration::from_secs(100)).unwrap();
+                } else {
+                    // like `cp -p older-file $1`: an mtime older than the target had
+                    let base_t = if before_t.is_some() { old } else { std::time::SystemTime::now() };
+                    f.set_modified(base_t - Duration::from_secs(100000)).unwrap();
+                }
             }
             "2" => {
                 let _ = std::fs::remove_file(&tpath);
